@@ -530,15 +530,16 @@ pub fn typed_family(seed: u64) -> Vec<(String, String)> {
     let mut out = vec![];
     let tags = ["", "!!int ", "!!float ", "!!bool ", "!!null ", "!!str ", "!local ", "!!binary "];
     let mut rng = Rng::new(seed ^ 0xc07);
-    for (i, (_o, t)) in boundary_texts(seed, false).into_iter().enumerate() {
+    for (i, (o, t)) in boundary_texts(seed, false).into_iter().enumerate() {
         if t.is_empty() || t.chars().any(|c| c == '\n' || c == '\'' || c == '"' || c == '\\' || !c.is_ascii()) || t.len() > 48 {
             continue;
         }
         // all tags for the listed texts, a rotating one for a sample of the rest
-        if i >= 400 && i % 16 != 0 {
+        // (the neighbourhoods of the powers of two all take part, untagged or under one tag)
+        if i >= 400 && i % 16 != 0 && o != "pow2" {
             continue;
         }
-        let ts: Vec<&str> = if i < 400 { tags.to_vec() } else { vec![tags[(i / 16) % tags.len()]] };
+        let ts: Vec<&str> = if i < 400 { tags.to_vec() } else if o == "pow2" { vec![tags[[0, 0, 1, 2][i % 4]]] } else { vec![tags[(i / 16) % tags.len()]] };
         for p in ts {
             let sq = format!("'{t}'");
             let dq = format!("\"{t}\"");
